@@ -138,9 +138,46 @@ def cover_algebra(ctx, g):
            "the base's operation is applied to the base chamber of d" if okop else "the image is not derived from ds.op(i, src(d)): " + show(op_r, 1)[:90])
 
 
+def oriented_sheet_map(ctx, g):
+    """oriented_cover: on the two sheets the map crosses to the OTHER sheet (k ^ 1) exactly when the partial orientation gives d and op(i, d)
+    the same sign (the edge does not reverse the orientation in the base), and stays (k) otherwise - so in the cover every edge joins
+    chambers of opposite sign"""
+    ctx.clauses.append("oriented cover: sheet flips (k ^ 1) iff ori[d] == ori[op(i, d)], stays otherwise (T4)")
+    cb = ctx.facts.bodies.get("derived::oriented_cover::{closure#0}")
+    if cb is None:
+        raise AnchorMissing("derived::oriented_cover::{closure#0}")
+    ctx.scan([cb])
+    k_, i_, d_ = (("param", n, cb.debug.get(n, "")) for n in (2, 3, 4))
+    res = {}
+    bad = None
+    for dbb, dterm in cb.all_defs_origins(0):
+        dterm = norm(dterm, g)
+        pol = None
+        for a in cb.facts_at(dbb):
+            a = atom_norm(a, g)
+            if a[0] == "rel" and a[1] in ("Eq", "Ne") and all(is_call(x, "Index::index") or x[0] == "index" for x in (strip(a[2]), strip(a[3]))):
+                l, r = strip(a[2]), strip(a[3])
+                il = strip(l[2][1]) if l[0] == "call" else strip(l[2])
+                ir = strip(r[2][1]) if r[0] == "call" else strip(r[2])
+                if il != d_:
+                    il, ir = ir, il
+                okidx = il == d_ and contains(ir, lambda y: is_call(y, "DSet::op") and strip(y[2][1]) == i_ and strip(y[2][2]) == d_)
+                if not okidx:
+                    bad = bad or "the signs compared are not ori[d] and ori[op(i, d)]: " + show_atom(a)[:80]
+                pol = a[1] == "Eq"
+        vals = [eval_term_env(dterm, {k_: kk}) for kk in (0, 1)]
+        res[pol] = vals
+    want = {True: [1, 0], False: [0, 1]}
+    if not bad and res != want:
+        bad = "the sheet map gives %s for k = 0, 1 when the signs agree and %s when they differ; expected [1, 0] and [0, 1]" % (res.get(True), res.get(False))
+    ctx.ob("T4-oriented-sheet-map", cb.name, "k ^ 1 iff equal signs", "ok" if not bad else "violation",
+           "equal signs -> other sheet, different signs -> same sheet" if not bad else bad)
+
+
 def run(ctx):
     g = ctx.facts.getters()
     cover_algebra(ctx, g)
+    oriented_sheet_map(ctx, g)
     ctx.clauses += ["each cover is assembled from the base's operations and degrees (T9/T2)", "oriented cover: one sheet if oriented, two otherwise (T3/T4)"]
     cft = ctx.body("covers::cover_for_table")
     sc = ctx.body("covers::subgroup_cover")
